@@ -66,7 +66,8 @@ func C02(c *core.Ctx) {
 		runMember(c, mb, ruleSet("A-DEF"), 256, func(w *fam.World, fm *fam.FileModel) []fam.Issue {
 			var out []fam.Issue
 			for _, is := range checkRoot(w, fm) {
-				if is.Rule == "A-DEF" {
+				// (null for a non-nullable defaulted property is not a VALID document: that clause is C09's alone)
+				if is.Rule == "A-DEF" && !strings.Contains(is.Construct, "null for a defaulted property") {
 					out = append(out, is)
 				}
 			}
